@@ -14,3 +14,13 @@ Theorem C20_module : forall b pre x post, fits b -> ab_modules b = pre ++ x :: p
   exists p, parse (layout b) = Ok p /\ get_module p (zlen pre) = Ok x.
 Proof. exact RamProofs.C20_module. Qed.
 Print Assumptions C20_module.
+
+(* an id past the table is an error; the module iterator yields exactly the present modules, in id order *)
+Theorem C20_past_table : forall b id, fits b -> zlen (ab_modules b) <= id ->
+  exists p, parse (layout b) = Ok p /\ get_module p id = Err ERamIndex.
+Proof. exact RamProofs.C20_past_table. Qed.
+Print Assumptions C20_past_table.
+Theorem C20_iter : forall b, fits b ->
+  exists p, parse (layout b) = Ok p /\ iter_modules p = present (ab_modules b) 0.
+Proof. exact RamProofs.C20_iter. Qed.
+Print Assumptions C20_iter.
